@@ -17,7 +17,8 @@ import json
 from mc import harness as H, peer as P
 from props import faultinv as FI
 
-SERVERS = FI.SERVERS
+SERVERS = dict(FI.SERVERS)
+SERVERS['ssh1'] = lambda: P.Server(label='fi', banner=b'SSH-1.5-OpenSSH_3.4', ssh1={'cmask': 0x4c, 'amask': 0x2c}, versions_differ=True)
 CATS = FI.CATS
 # client audits (-c): the peer dials in and sends identification string and KEXINIT back to back
 CLIENTS = {'client:modern': lambda: P.Client(label='fi', banner=b'SSH-2.0-OpenSSH_9.6'),
@@ -59,16 +60,21 @@ def tasks(tier='quick'):
         _res, sites, _n = baseline(name)
         for kw in ({'segment': 1}, {'segment': 7}, {'segment': 13}, {'coalesce': True}, {'coalesce': True, 'eager': True}, {'eager': True}, {'eager': True, 'segment': 16},
                    {'eager': True, 'segment': 1}):
+            if name == 'ssh1' and kw.get('eager'):
+                continue        # an SSH-1 server has no KEXINIT to send early
             out.append((name, None, None, tuple(sorted(kw.items()))))
         # the peer has sent identification string and KEXINIT and is gone (abortive close): the tool's own writes fail from the start,
         # what the peer sent is readable all the same - in one piece, in segments, glued
         for kw in ({'eager': True}, {'eager': True, 'segment': 16}, {'eager': True, 'segment': 1}, {'eager': True, 'coalesce': True}, {'segment': 16}, {'segment': 1}):
-            if name in SERVERS:
+            if name in SERVERS and name != 'ssh1':
                 out.append((name, (0, 1), ('then_reset',), tuple(sorted(kw.items()))))     # first connection only: there the KEXINIT is the last thing the tool reads
         for conn, msg, ln, label in sites:
             pats = [('seg1',), ('again', 1), ('late', 4.9), ('drip', 3, 2.4), ('drip', 8, 0.9), ('split_late', max(1, ln // 2), 4.9), ('split_again', max(1, ln // 2)),
                     ('split_again', max(1, ln - 3)), ('split_late', max(1, ln - 1), 3.0),
                     ('late', 'timeout'), ('split_late', max(1, ln // 3), 'timeout')]      # 'timeout': at the very moment the receive call's timeout runs out
+            if tier != 'quick':
+                pats += [('split', k) for k in range(1, ln)]      # every cut
+                pats += [('split_again', k) for k in range(1, ln, 7)] + [('split_late', k, 4.9) for k in range(1, ln, 11)]
             for k in list(range(1, 13)) + [ln - 1, ln - 5, ln - 6]:
                 if 0 < k < ln:
                     pats.append(('split', ln - k))
@@ -85,19 +91,24 @@ def tasks(tier='quick'):
     return out
 
 
+def _entries(doc):
+    # an SSH-1 report lists bare names
+    return FI.entries({c: [e for e in doc.get(c, []) if isinstance(e, dict)] for c in CATS})
+
+
 def _part(doc, what):
     if what == 'names':
-        return {c: [e['algorithm'] for e in doc.get(c, [])] for c in CATS}, doc.get('compression'), doc.get('banner')
+        return {c: [e['algorithm'] if isinstance(e, dict) else e for e in doc.get(c, [])] for c in CATS + ('aut',)}, doc.get('compression'), doc.get('banner')
     if what == 'notes':
-        return {k: v['notes'] for k, v in FI.entries(doc).items()}
+        return {k: v['notes'] for k, v in _entries(doc).items()}
     if what == 'sizes':
-        return {k: (v['keysize'], v['casize'], v['ca']) for k, v in FI.entries(doc).items()}, sorted(json.dumps(f, sort_keys=True) for f in doc.get('fingerprints', []))
+        return {k: (v['keysize'], v['casize'], v['ca']) for k, v in _entries(doc).items()}, sorted(json.dumps(f, sort_keys=True) for f in doc.get('fingerprints', []))
     if what == 'recs':
         return doc.get('recommendations')
     if what == 'banner':
         return doc.get('banner')
     if what == 'terrapin':
-        return sorted((k, t) for k, v in FI.entries(doc).items() for _lv, t in v['notes'] if 'errapin' in t), doc.get('additional_notes')
+        return sorted((k, t) for k, v in _entries(doc).items() for _lv, t in v['notes'] if 'errapin' in t), doc.get('additional_notes')
     return doc
 
 
@@ -127,7 +138,7 @@ def judge(name, site, pattern, kw=()):
     for what in ('names', 'notes', 'sizes', 'recs', 'banner', 'terrapin'):
         if _part(doc, what) != _part(bdoc, what):
             probs.append((what, '%s-differ:%s' % (what, tag), dict(d, fault_free=str(_part(bdoc, what))[:300], this_delivery=str(_part(doc, what))[:300])))
-    e0, e1 = FI.entries(bdoc), FI.entries(doc)
+    e0, e1 = _entries(bdoc), _entries(doc)
     for k in e1:
         if FI._worst(e1[k]['notes']) > FI._worst(e0.get(k, {'notes': []})['notes']):
             probs.append(('monotone', 'delivery-adds-a-finding:%s' % tag, dict(d, algorithm='%s:%s' % k, fault_free=e0.get(k, {}).get('notes'), this_delivery=e1[k]['notes'])))
